@@ -111,18 +111,25 @@ fn absolute_source_path(manifest_dir: &str, file_path: &str) -> PathBuf {
 }
 
 /// Compute the byte offset of a (line, col) position within a source string.
-/// `line` is 1-indexed; `col` is 0-indexed (as returned by proc_macro2's span locations).
+/// `line` is 1-indexed; `col` is a 0-indexed character column (as returned by proc_macro2's span locations).
 /// Returns 0 when `line` is 0 (synthetic span with no real source location).
 fn byte_offset_of(source: &str, line: u32, col: u32) -> usize {
     if line == 0 {
         return 0;
     }
-    let line_start: usize = source
-        .split('\n')
+    let mut lines = source.split('\n');
+    let line_start: usize = lines
+        .by_ref()
         .take((line - 1) as usize)
         .map(|l| l.len() + 1) // +1 for the '\n'
         .sum();
-    (line_start + col as usize).min(source.len())
+    // `col` counts characters, not bytes: convert it within the line.
+    let line_text = lines.next().unwrap_or("");
+    let col_bytes = line_text
+        .char_indices()
+        .nth(col as usize)
+        .map_or(line_text.len(), |(i, _)| i);
+    (line_start + col_bytes).min(source.len())
 }
 
 /// Context information for a failed assertion.
@@ -355,8 +362,13 @@ impl fmt::Display for ErrorReport {
                         error.error_node.col_start,
                     );
                     let end =
-                        byte_offset_of(source, error.error_node.line_end, error.error_node.col_end)
-                            .max(start + 1);
+                        byte_offset_of(source, error.error_node.line_end, error.error_node.col_end);
+                    // Never hand the renderer an empty span; widen to the next character.
+                    let end = if end > start {
+                        end
+                    } else {
+                        start + source[start..].chars().next().map_or(1, char::len_utf8)
+                    };
                     #[cfg(assert_struct_verif)]
                     verif::log_span(start, end);
                     AnnotationKind::Primary
